@@ -4,7 +4,12 @@
 //!   programs[t] = list of calls of thread t on ONE shared `Pipeline`:
 //!     ["src", [[k,v],..]]            from_vec
 //!     ["map", c, [t,k]]              parent.map(|(k,v)| (k, v.bump(c)))
-//!     ["filter", m, r, [t,k]]        parent.filter(|(_,v)| v.score() mod m == r)
+//!     [builder, a, b, [t,k]]         any other public transform builder, see the table `Op`
+//!                                    (filter, flat_map, map_values, filter_values, map_batches,
+//!                                    map_values_batches, combine_values, combine_globally(_lifted),
+//!                                    apply_transform, distinct, distinct_per_key, gbk_lifted, key_by,
+//!                                    group_by_key, top_k_per_key, key_by_window, group_by_window,
+//!                                    group_by_key_and_window); 2 locks per inserted node
 //!     ["join", kind, [t,k], [t,k]]   left.join_{inner,left,right,full}(&right) -> RAW handle, then
 //!                                    raw.map(wrap) -> general handle   (two handles, 5 + 2 locks)
 //!     ["collect", mode, [t,k]]       mode 0: collect_seq(); mode p>0: collect_par(None, Some(p))
@@ -24,7 +29,8 @@
 //! Values: rows are (i64 key, Val); Val = int | pair | none | some, JSON: z | [a,b] | null | [a].
 use ibv::{Emitter, SplitMix64, Tier, drive};
 use ironbeam::verif::set_yield_hook;
-use ironbeam::{PCollection, Pipeline, from_vec};
+use ironbeam::collection::LiftableCombiner;
+use ironbeam::{CombineFn, DynOp, PCollection, Partition, Pipeline, Timestamped, Window, from_vec};
 use serde_json::{Value, json};
 use std::cell::Cell;
 use std::collections::HashMap;
@@ -41,6 +47,18 @@ enum Val {
     P(Box<Val>, Box<Val>),
     N,
     S(Box<Val>),
+}
+/// order by score first (top_k_per_key then keeps the values with the largest scores), ties
+/// broken structurally so that Ord is consistent with Eq
+impl Ord for Val {
+    fn cmp(&self, o: &Val) -> std::cmp::Ordering {
+        (self.score(), format!("{self:?}")).cmp(&(o.score(), format!("{o:?}")))
+    }
+}
+impl PartialOrd for Val {
+    fn partial_cmp(&self, o: &Val) -> Option<std::cmp::Ordering> {
+        Some(self.cmp(o))
+    }
 }
 impl Val {
     fn bump(&self, c: i64) -> Val {
@@ -76,14 +94,293 @@ fn rows_json(rows: &[Row]) -> Value {
     Value::Array(rows.iter().map(|(k, v)| json!([k, v.json()])).collect())
 }
 
+// ------------------------------------------------------------------ the builder table
+// Every public transform builder of ironbeam has its own copy of "insert_node; connect; return
+// a new handle".  A derive op of a history is one of these builders (followed, where the
+// builder changes the element type, by a `map` back to Row so that every general handle is a
+// PCollection<Row>).  `nodes` = number of nodes the op inserts = half its pipeline locks.
+// Value-only operators (map_values, filter_values, map_values_batches) are chosen to commute
+// pairwise: the planner's re-ordering of value-only runs is the open finding C02/C03-reorder
+// and not this property's subject.
+#[derive(Clone, Copy, Debug, PartialEq, Eq)]
+enum Op {
+    Map,
+    Filter,
+    FlatMap,
+    MapValues,
+    FilterValues,
+    MapBatches,
+    MapValuesBatches,
+    CombineValues,
+    CombineGlobally,
+    CombineGloballyLifted,
+    ApplyTransform,
+    Distinct,
+    DistinctPerKey,
+    GbkLifted,
+    KeyBy,
+    GroupByKey,
+    TopKPerKey,
+    KeyByWindow,
+    GroupByWindow,
+    GroupByKeyAndWindow,
+}
+const OPS: [Op; 20] = [
+    Op::Map,
+    Op::Filter,
+    Op::FlatMap,
+    Op::MapValues,
+    Op::FilterValues,
+    Op::MapBatches,
+    Op::MapValuesBatches,
+    Op::CombineValues,
+    Op::CombineGlobally,
+    Op::CombineGloballyLifted,
+    Op::ApplyTransform,
+    Op::Distinct,
+    Op::DistinctPerKey,
+    Op::GbkLifted,
+    Op::KeyBy,
+    Op::GroupByKey,
+    Op::TopKPerKey,
+    Op::KeyByWindow,
+    Op::GroupByWindow,
+    Op::GroupByKeyAndWindow,
+];
+impl Op {
+    fn name(self) -> &'static str {
+        match self {
+            Op::Map => "map",
+            Op::Filter => "filter",
+            Op::FlatMap => "flat_map",
+            Op::MapValues => "map_values",
+            Op::FilterValues => "filter_values",
+            Op::MapBatches => "map_batches",
+            Op::MapValuesBatches => "map_values_batches",
+            Op::CombineValues => "combine_values",
+            Op::CombineGlobally => "combine_globally",
+            Op::CombineGloballyLifted => "combine_globally_lifted",
+            Op::ApplyTransform => "apply_transform",
+            Op::Distinct => "distinct",
+            Op::DistinctPerKey => "distinct_per_key",
+            Op::GbkLifted => "gbk_lifted",
+            Op::KeyBy => "key_by",
+            Op::GroupByKey => "group_by_key",
+            Op::TopKPerKey => "top_k_per_key",
+            Op::KeyByWindow => "key_by_window",
+            Op::GroupByWindow => "group_by_window",
+            Op::GroupByKeyAndWindow => "group_by_key_and_window",
+        }
+    }
+    fn from_name(n: &str) -> Option<Op> {
+        OPS.iter().copied().find(|o| o.name() == n)
+    }
+    /// nodes inserted (each: one insert_node lock + one connect lock)
+    fn nodes(self) -> usize {
+        match self {
+            Op::Distinct | Op::GbkLifted | Op::KeyBy | Op::GroupByKey | Op::TopKPerKey => 2,
+            Op::DistinctPerKey | Op::KeyByWindow => 3,
+            Op::GroupByWindow | Op::GroupByKeyAndWindow => 4,
+            _ => 1,
+        }
+    }
+    fn params_ok(self, a: i64, b: i64) -> bool {
+        match self {
+            Op::Filter | Op::FilterValues => a > 0 && (0..a).contains(&b),
+            Op::MapBatches => (1..=8).contains(&a) && b.abs() < 1000,
+            Op::MapValuesBatches => (1..=8).contains(&a),
+            Op::CombineGlobally | Op::CombineGloballyLifted => (0..=8).contains(&a),
+            Op::KeyBy => (1..=8).contains(&a),
+            Op::TopKPerKey => (0..=8).contains(&a),
+            Op::KeyByWindow | Op::GroupByWindow | Op::GroupByKeyAndWindow => (1..=100).contains(&a),
+            _ => a.abs() < 1000,
+        }
+    }
+    fn gen_params(self, rng: &mut SplitMix64) -> (i64, i64) {
+        match self {
+            Op::Filter | Op::FilterValues => {
+                let m = rng.range(2, 3);
+                (m, rng.range(0, m - 1))
+            }
+            Op::MapBatches => (rng.range(1, 3), rng.range(1, 3)),
+            Op::MapValuesBatches => (rng.range(1, 3), 0),
+            Op::CombineGlobally | Op::CombineGloballyLifted => (rng.range(0, 3), 0),
+            Op::KeyBy => (rng.range(2, 3), 0),
+            Op::TopKPerKey => (rng.range(0, 2), 0),
+            Op::KeyByWindow | Op::GroupByWindow | Op::GroupByKeyAndWindow => (rng.range(2, 5), 0),
+            Op::Map | Op::FlatMap | Op::ApplyTransform => (rng.range(1, 3), 0),
+            _ => (0, 0),
+        }
+    }
+}
+
+#[derive(Clone)]
+struct Tick(Arc<AtomicUsize>);
+impl Tick {
+    fn hit(&self) {
+        self.0.fetch_add(1, Ordering::SeqCst);
+    }
+}
+fn some(v: &Val) -> Val {
+    Val::S(Box::new(v.clone()))
+}
+fn fanout(a: i64) -> Option<usize> {
+    if a == 0 { None } else { Some(a as usize) }
+}
+/// sum of the scores of the values, per key (CombineFn user code: counted)
+struct ScoreSum(Tick);
+impl CombineFn<Val, i64, Val> for ScoreSum {
+    fn create(&self) -> i64 {
+        0
+    }
+    fn add_input(&self, acc: &mut i64, v: Val) {
+        self.0.hit();
+        *acc += v.score();
+    }
+    fn merge(&self, acc: &mut i64, other: i64) {
+        *acc += other;
+    }
+    fn finish(&self, acc: i64) -> Val {
+        Val::I(acc)
+    }
+}
+impl LiftableCombiner<Val, i64, Val> for ScoreSum {}
+/// sum of key + score over all rows, one output row (0, sum)
+struct RowSum(Tick);
+impl CombineFn<Row, i64, Row> for RowSum {
+    fn create(&self) -> i64 {
+        0
+    }
+    fn add_input(&self, acc: &mut i64, r: Row) {
+        self.0.hit();
+        *acc += r.0 + r.1.score();
+    }
+    fn merge(&self, acc: &mut i64, other: i64) {
+        *acc += other;
+    }
+    fn finish(&self, acc: i64) -> Row {
+        (0, Val::I(acc))
+    }
+}
+impl LiftableCombiner<Row, i64, Row> for RowSum {}
+/// custom operator for apply_transform
+struct BumpOp(i64, Tick);
+impl DynOp for BumpOp {
+    fn apply(&self, input: Partition) -> Partition {
+        self.1.hit();
+        let v = *input.downcast::<Vec<Row>>().expect("BumpOp expects Vec<Row>");
+        Box::new(v.into_iter().map(|(k, x)| (k, x.bump(self.0))).collect::<Vec<Row>>())
+    }
+}
+fn len_sum(scores: impl Iterator<Item = i64>) -> Val {
+    let (mut n, mut s) = (0i64, 0i64);
+    for x in scores {
+        n += 1;
+        s += x;
+    }
+    pair(Val::I(n), Val::I(s))
+}
+
+fn build_derive(tk: &Tick, op: Op, a: i64, b: i64, p: PCollection<Row>) -> PCollection<Row> {
+    let (t1, t2, t3) = (tk.clone(), tk.clone(), tk.clone());
+    match op {
+        Op::Map => p.map(move |(k, v): &Row| {
+            t1.hit();
+            (*k, v.bump(a))
+        }),
+        Op::Filter => p.filter(move |(_, v): &Row| {
+            t1.hit();
+            v.score().rem_euclid(a) == b
+        }),
+        Op::FlatMap => p.flat_map(move |(k, v): &Row| {
+            t1.hit();
+            if v.score().rem_euclid(2) == 0 {
+                vec![(*k, v.clone()), (*k, v.bump(a))]
+            } else {
+                vec![(*k, v.clone())]
+            }
+        }),
+        Op::MapValues => p.map_values(move |v: &Val| {
+            t1.hit();
+            some(v)
+        }),
+        Op::FilterValues => p.filter_values(move |v: &Val| {
+            t1.hit();
+            v.score().rem_euclid(a) == b
+        }),
+        Op::MapBatches => p.map_batches(a as usize, move |batch: &[Row]| {
+            t1.hit();
+            batch.iter().map(|(k, v)| (*k, v.bump(b))).collect::<Vec<Row>>()
+        }),
+        Op::MapValuesBatches => p.map_values_batches(a as usize, move |vs: &[Val]| {
+            t1.hit();
+            vs.iter().map(some).collect::<Vec<Val>>()
+        }),
+        Op::CombineValues => p.combine_values(ScoreSum(t1)),
+        Op::CombineGlobally => p.combine_globally(RowSum(t1), fanout(a)),
+        Op::CombineGloballyLifted => p.combine_globally_lifted(RowSum(t1), fanout(a)),
+        Op::ApplyTransform => p.apply_transform::<Row>(Arc::new(BumpOp(a, t1))),
+        Op::Distinct => p.distinct(),
+        Op::DistinctPerKey => p.distinct_per_key(),
+        Op::GbkLifted => p.group_by_key().combine_values_lifted(ScoreSum(t1)),
+        Op::KeyBy => p
+            .key_by(move |(_, v): &Row| {
+                t1.hit();
+                v.score().rem_euclid(a)
+            })
+            .map(move |(k2, (k, v)): &(i64, Row)| {
+                t2.hit();
+                (*k2, pair(Val::I(*k), v.clone()))
+            }),
+        Op::GroupByKey => p.group_by_key().map(move |(k, vs): &(i64, Vec<Val>)| {
+            t1.hit();
+            (*k, len_sum(vs.iter().map(Val::score)))
+        }),
+        Op::TopKPerKey => p.top_k_per_key(a as usize).map(move |(k, vs): &(i64, Vec<Val>)| {
+            t1.hit();
+            (*k, Val::I(vs.iter().map(Val::score).sum()))
+        }),
+        Op::KeyByWindow => p
+            .attach_timestamps(move |(_, v): &Row| {
+                t1.hit();
+                v.score().max(0) as u64
+            })
+            .key_by_window(a as u64, 0)
+            .map(move |(w, (k, v)): &(Window, Row)| {
+                t2.hit();
+                (w.start as i64, pair(Val::I(*k), v.clone()))
+            }),
+        Op::GroupByWindow => p
+            .attach_timestamps(move |(_, v): &Row| {
+                t1.hit();
+                v.score().max(0) as u64
+            })
+            .group_by_window(a as u64, 0)
+            .map(move |(w, rows): &(Window, Vec<Row>)| {
+                t2.hit();
+                (w.start as i64, len_sum(rows.iter().map(|(k, v)| *k + v.score())))
+            }),
+        Op::GroupByKeyAndWindow => p
+            .map_values(move |v: &Val| {
+                t1.hit();
+                Timestamped::new(v.score().max(0) as u64, v.clone())
+            })
+            .group_by_key_and_window(a as u64, 0)
+            .map(move |((k, w), vs): &((i64, Window), Vec<Val>)| {
+                t3.hit();
+                (*k * 1000 + w.start as i64, len_sum(vs.iter().map(Val::score)))
+            }),
+    }
+}
+
 // ------------------------------------------------------------------ programs
 
 type Ref = (usize, usize);
 #[derive(Clone, Debug)]
 enum Call {
     Src(Vec<(i64, i64)>),
-    Map(i64, Ref),
-    Filter(i64, i64, Ref),
+    /// one public transform builder (table `Op`) with two integer parameters
+    Derive(Op, i64, i64, Ref),
     Join(u8, Ref, Ref),
     Collect(usize, Ref),
 }
@@ -92,14 +389,15 @@ impl Call {
     fn steps(&self) -> usize {
         match self {
             Call::Src(_) => 1,
-            Call::Map(..) | Call::Filter(..) => 2,
+            Call::Derive(op, ..) => 2 * op.nodes(),
             Call::Join(..) => 7,
             Call::Collect(..) => 3,
         }
     }
     fn inserts(&self) -> usize {
         match self {
-            Call::Src(_) | Call::Map(..) | Call::Filter(..) => 1,
+            Call::Src(_) => 1,
+            Call::Derive(op, ..) => op.nodes(),
             Call::Join(..) => 3,
             Call::Collect(..) => 0,
         }
@@ -107,8 +405,8 @@ impl Call {
     fn json(&self) -> Value {
         match self {
             Call::Src(d) => json!(["src", d.iter().map(|(k, v)| json!([k, v])).collect::<Vec<_>>()]),
-            Call::Map(c, r) => json!(["map", c, [r.0, r.1]]),
-            Call::Filter(m, r, x) => json!(["filter", m, r, [x.0, x.1]]),
+            Call::Derive(Op::Map, c, _, r) => json!(["map", c, [r.0, r.1]]),
+            Call::Derive(op, a, b, r) => json!([op.name(), a, b, [r.0, r.1]]),
             Call::Join(k, l, r) => json!(["join", k, [l.0, l.1], [r.0, r.1]]),
             Call::Collect(m, x) => json!(["collect", m, [x.0, x.1]]),
         }
@@ -139,13 +437,14 @@ fn parse_call(v: &Value) -> Option<Call> {
             }
             Some(Call::Src(d))
         }
-        ("map", 3) => Some(Call::Map(a[1].as_i64()?, parse_ref(&a[2])?)),
-        ("filter", 4) => {
-            let m = a[1].as_i64()?;
-            if m <= 0 {
+        ("map", 3) => Some(Call::Derive(Op::Map, a[1].as_i64()?, 0, parse_ref(&a[2])?)),
+        (name, 4) if Op::from_name(name).is_some() => {
+            let op = Op::from_name(name)?;
+            let (x, y) = (a[1].as_i64()?, a[2].as_i64()?);
+            if !op.params_ok(x, y) {
                 return None;
             }
-            Some(Call::Filter(m, a[2].as_i64()?, parse_ref(&a[3])?))
+            Some(Call::Derive(op, x, y, parse_ref(&a[3])?))
         }
         ("join", 4) => {
             let k = a[1].as_u64()?;
@@ -180,7 +479,7 @@ fn handle_kinds(p: &[Call]) -> Vec<bool> {
     let mut out = Vec::new();
     for c in p {
         match c {
-            Call::Src(_) | Call::Map(..) | Call::Filter(..) => out.push(true),
+            Call::Src(_) | Call::Derive(..) => out.push(true),
             Call::Join(..) => {
                 out.push(false);
                 out.push(true);
@@ -230,7 +529,7 @@ impl<'a> Sim<'a> {
         if st == 0 {
             let ok = match call {
                 Call::Src(_) => true,
-                Call::Map(_, r) | Call::Filter(_, _, r) => self.avail(*r, true),
+                Call::Derive(_, _, _, r) => self.avail(*r, true),
                 Call::Join(_, l, r) => self.avail(*l, true) && self.avail(*r, true),
                 Call::Collect(_, r) => self.avail(*r, false),
             };
@@ -241,7 +540,7 @@ impl<'a> Sim<'a> {
         // handles appear with the last lock of the API call that returns them
         match call {
             Call::Src(_) if st == 0 => self.produced[t] += 1,
-            Call::Map(..) | Call::Filter(..) if st == 1 => self.produced[t] += 1,
+            Call::Derive(op, ..) if st + 1 == 2 * op.nodes() => self.produced[t] += 1,
             Call::Join(..) if st == 4 || st == 6 => self.produced[t] += 1,
             _ => {}
         }
@@ -461,31 +760,12 @@ fn exec_call(sh: &Shared, t: usize, next: &mut usize, call: &Call) -> Value {
             *next += 1;
             json!(["h", id, locks()])
         }
-        Call::Map(c, r) => {
+        Call::Derive(op, a, b, r) => {
             let Some(p) = sh.general(*r) else {
                 *next += 1; // keep the (thread, index) numbering of the program text
                 return json!(["unavailable"]);
             };
-            let (c, cnt) = (*c, Arc::clone(&sh.counter));
-            let h = p.map(move |(k, v): &Row| {
-                cnt.fetch_add(1, Ordering::SeqCst);
-                (*k, v.bump(c))
-            });
-            let id = h.node_id().raw();
-            sh.publish((t, *next), H::G(h));
-            *next += 1;
-            json!(["h", id, locks()])
-        }
-        Call::Filter(m, rr, r) => {
-            let Some(p) = sh.general(*r) else {
-                *next += 1; // keep the (thread, index) numbering of the program text
-                return json!(["unavailable"]);
-            };
-            let (m, rr, cnt) = (*m, *rr, Arc::clone(&sh.counter));
-            let h = p.filter(move |(_, v): &Row| {
-                cnt.fetch_add(1, Ordering::SeqCst);
-                v.score().rem_euclid(m) == rr
-            });
+            let h = build_derive(&Tick(Arc::clone(&sh.counter)), *op, *a, *b, p);
             let id = h.node_id().raw();
             sh.publish((t, *next), H::G(h));
             *next += 1;
@@ -775,10 +1055,15 @@ impl Gen {
             let roll = rng.below(10 + collect_bias);
             let c = match roll {
                 0 | 1 => Some(Call::Src(gen_rows(rng))),
-                2 | 3 => self.pick_ref(rng, true).map(|r| Call::Map(rng.range(1, 3), r)),
-                4 => self.pick_ref(rng, true).map(|r| {
-                    let m = rng.range(2, 3);
-                    Call::Filter(m, rng.range(0, m - 1), r)
+                2 | 3 | 4 => self.pick_ref(rng, true).map(|r| {
+                    // map and filter_values a bit more often than the other builders
+                    let op = match rng.below(12) {
+                        0 => Op::Map,
+                        1 => Op::FilterValues,
+                        _ => *rng.pick(&OPS),
+                    };
+                    let (a, b) = op.gen_params(rng);
+                    Call::Derive(op, a, b, r)
                 }),
                 5 | 6 => match (self.pick_ref(rng, true), self.pick_ref(rng, true)) {
                     (Some(l), Some(r)) => Some(Call::Join(rng.below(4) as u8, l, r)),
@@ -834,7 +1119,10 @@ fn gen_hist(rng: &mut SplitMix64, n: usize, ncalls: usize) -> (Vec<Vec<Call>>, V
         let st = cur[t].unwrap();
         let call = g.programs[t].last().unwrap().clone();
         match (&call, st) {
-            (Call::Src(_), 0) | (Call::Map(..) | Call::Filter(..), 1) | (Call::Join(..), 6) => {
+            (Call::Src(_), 0) | (Call::Join(..), 6) => {
+                g.produced[t].push(true);
+            }
+            (Call::Derive(op, ..), st) if st + 1 == 2 * op.nodes() => {
                 g.produced[t].push(true);
             }
             (Call::Join(..), 4) => g.produced[t].push(false),
@@ -928,7 +1216,19 @@ fn emit_exhaustive(em: &mut Emitter, programs: &[Vec<Call>], tag: &str) -> usize
 }
 
 fn exhaustive_sets(tier: Tier) -> Vec<(&'static str, Vec<Vec<Call>>)> {
-    use Call::{Collect, Filter, Join, Map, Src};
+    use Call::{Collect, Join, Src};
+    #[allow(non_snake_case)]
+    fn Map(c: i64, r: Ref) -> Call {
+        Call::Derive(Op::Map, c, 0, r)
+    }
+    #[allow(non_snake_case)]
+    fn Filter(m: i64, x: i64, r: Ref) -> Call {
+        Call::Derive(Op::Filter, m, x, r)
+    }
+    #[allow(non_snake_case)]
+    fn D(op: Op, a: i64, b: i64, r: Ref) -> Call {
+        Call::Derive(op, a, b, r)
+    }
     let a = vec![(0, 1), (1, 2), (0, 3)];
     let b = vec![(0, 5), (2, 7)];
     let mut v = vec![
@@ -965,6 +1265,22 @@ fn exhaustive_sets(tier: Tier) -> Vec<(&'static str, Vec<Vec<Call>>)> {
             ],
         ),
     ];
+    // other builder families: in-place modification of the parent would show in the collects of
+    // the ancestor (0,1) around the filter_values / of the source around distinct + group_by_key
+    v.push((
+        "E7",
+        vec![
+            vec![Src(a.clone()), D(Op::MapValues, 0, 0, (0, 0)), D(Op::FilterValues, 2, 1, (0, 1))],
+            vec![Collect(0, (0, 1)), Collect(1, (0, 1))],
+        ],
+    ));
+    v.push((
+        "E8",
+        vec![
+            vec![Src(a.clone()), D(Op::Distinct, 0, 0, (0, 0))],
+            vec![D(Op::GroupByKey, 0, 0, (0, 0)), Collect(0, (0, 0))],
+        ],
+    ));
     if tier == Tier::Thorough {
         v.push((
             "E2b",
@@ -1019,7 +1335,7 @@ fn generate(seed: u64, tier: Tier, em: &mut Emitter) {
     }
     // 2. seeded random histories, 1..4 threads
     let mut rng = SplitMix64::new(seed ^ 0xC08);
-    let n_hist = if tier == Tier::Thorough { 12000 } else { 2000 };
+    let n_hist = if tier == Tier::Thorough { 20000 } else { 5000 };
     for i in 0..n_hist {
         let n = 1 + (i % 4);
         let ncalls = 2 + rng.below(11) as usize;
